@@ -17,8 +17,8 @@ package main
 
 import (
 	"fmt"
-	"os"
 	"go/token"
+	"os"
 
 	"golang.org/x/tools/go/ssa"
 )
